@@ -168,7 +168,7 @@ func c15line(c *Ctx, st *c15state, line string) {
 		if hasCb {
 			txs = txs[1:]
 		}
-		blk, suffix := ecBlock(st.c.Hash, height, ts, outs0, hasCb, txs)
+		blk, suffix, _ := ecBlock(st.c.Hash, height, ts, outs0, hasCb, txs)
 		res := ""
 		func() {
 			defer func() {
